@@ -66,14 +66,12 @@ FirstDated == NextHead(1)
 PrintedLines == IF FirstDated = 0 THEN {} ELSE FirstDated..N
 
 \* find_line(fo) for fo inside line i: that line.
-\* find_sysline(fo) for fo inside line i: the message headed by the first dated line at or after i
-\* (0 = Done).  When fo lies in an undated (continuation) line the reader may instead answer with the
-\* message that CONTAINS fo if it already knows it -- the public contract only fixes the answer for
-\* offsets in a dated line or past the end, which is all the program itself ever asks (it always
-\* continues from the `next` offset of the previous answer).  The specification is therefore a relation.
+\* find_sysline(fo) for fo inside line i: the message that contains line i (the reader walks back to the
+\* head line), or, for undated lines before the first dated line, the first message (0 = Done: no dated
+\* line at all).  A function of (file, fo) only -- no cache history may change it.
 FindLine(i) == i
-FindSysline(i) == NextHead(i)
-FindSyslineAllowed(i) == {NextHead(i)} \cup (IF ~Dated(i) /\ HeadOf(i) # 0 THEN {HeadOf(i)} ELSE {})
+FindSysline(i) == IF HeadOf(i) # 0 THEN HeadOf(i) ELSE NextHead(i)
+FindSyslineAllowed(i) == {FindSysline(i)}
 
 -----------------------------------------------------------------------------
 (* Part 2: ReaderAPI                                                         *)
@@ -96,8 +94,9 @@ CallLine(i, p) ==
 \* message found (the line that terminates it is parsed too)
 CallSysline(i, p) ==
   LET h == FindSysline(i)
+      firstScanned == IF h = 0 \/ h > i THEN i ELSE h
       lastScanned == IF h = 0 THEN N ELSE IF LastOf(h) < N THEN LastOf(h) + 1 ELSE N IN
-  /\ cl' = cl \cup (i..lastScanned)
+  /\ cl' = cl \cup (firstScanned..lastScanned)
   /\ cs' = IF h = 0 THEN cs ELSE cs \cup {h}
   /\ path' = Append(path, <<"sysline", i, p, h>>)
 
